@@ -270,7 +270,14 @@ func (o *OAuth2) End(w http.ResponseWriter, r *http.Request) error {
 				r = r.WithContext(context.WithValue(r.Context(), authboss.CTXKeyValues, RMTrue{}))
 			}
 		case FormValueOAuth2Redir:
-			redirect = v
+			// Guard against Open Redirect: this value came in on the query
+			// string of the start request. Only follow targets on this site
+			// (path-absolute; browsers read "//host" and "/\\host" as a host,
+			// also with tabs or newlines in between).
+			if strings.HasPrefix(v, "/") && !strings.HasPrefix(v, "//") &&
+				!strings.HasPrefix(v, "/\\") && !strings.ContainsAny(v, "\t\n\r") {
+				redirect = v
+			}
 		default:
 			query.Set(k, v)
 		}
